@@ -4,6 +4,8 @@ from vlib import xhex, rnd_bytes
 from props.codec_common import *
 
 THEOREMS = ["C04_primary", "C04_canonical", "C04_bundle_layout", "C04_fresh_passes", "C04_tie_crc_single_bytes"]
+REPEAT = 2            # case lines repeated 66 000 times on one thread (state that builds up over many calls)
+REPEAT_CMDS = ('RT', 'RTV')
 RELEASE = True          # debug and release builds of the harness (debug_assert!, overflow checks, cfg(debug_assertions))
 RULE = ("CRC16/CRC32 on raw strings (lengths 0-300; random, all-zero, all-ones) against the crc-crate instances bp7 exports; RT "
         "<bundle> with every prior CRC state per block (absent, empty placeholder, stale value of either width): the CRC bytes on "
@@ -23,6 +25,18 @@ def corpus():
         out.append("RTV " + genb.show_bundle(b))
     out += ["RTV " + genb.show_bundle(b) for b in boundary_bundles()[:12]]
     out += genb.BIG_CASES[:9]      # blocks beyond 64 KiB, 65536+ array elements: implementation against the reference encoder
+    # payload blocks whose OWN encoding is exactly 4096 / 8192 / 16384 / 32768 bytes (and one byte to either side): a checksum fed in
+    # pieces must not lose or repeat a piece at a chunk boundary.  block = 5 head bytes + 3-byte string head + payload + CRC field (3 / 5)
+    import vlib
+    rng = vlib.Rng(404)
+    for total in (4096, 8192, 16384, 32768):
+        for ck, field in ((1, 3), (2, 5)):
+            for d in (-1, 0, 1):
+                n = total - 8 - field + d
+                b = genb.rnd_bundle(rng, nblocks=0, crc_kind=ck)
+                b["cs"][-1]["flags"] = 0
+                b["cs"][-1]["data"] = ("DATA", bytes((i * 131 + 7) % 256 for i in range(n)))
+                out.append("RT " + genb.show_bundle(b))
     return out
 
 
